@@ -327,3 +327,76 @@ Proof.
   - exact (known_class_misreported rb compiles body_ok t).
 Qed.
 Print Assumptions C16_known_class_exact.
+
+(* T14 the summary line prints exactly the non-zero counters, each with its own label
+       (0 passed, 1 failed, 2 skipped, 3 xfailed, 4 xpassed) *)
+Theorem C16_summary_exact : forall stop run ts n k,
+  let s := loop stop run ts st0 in
+  In (n, k) (summary_parts s) <->
+  n > 0 /\ ((k = 0 /\ n = countZ is_passed (results s)) \/ (k = 1 /\ n = countZ is_failed (results s)) \/
+            (k = 2 /\ n = countZ is_skipped (results s)) \/ (k = 3 /\ n = countZ is_xfailed (results s)) \/
+            (k = 4 /\ n = countZ is_xpassed (results s))).
+Proof.
+  intros stop run ts n k. cbv zeta. rewrite summary_parts_spec.
+  pose proof (C16_counts_match_verdicts stop run ts) as H. cbv zeta in H.
+  destruct H as [_ [H1 [H2 [H3 [H4 [H5 _]]]]]]. rewrite <- H1, <- H2, <- H3, <- H4, <- H5. cbn [In].
+  split; intros [Hn H]; split; try exact Hn.
+  - destruct H as [H | [H | [H | [H | [H | []]]]]]; inversion H; subst; tauto.
+  - destruct H as [[A B] | [[A B] | [[A B] | [[A B] | [A B]]]]]; subst; tauto.
+Qed.
+Print Assumptions C16_summary_exact.
+
+(* T15 the order in which the file system lists directory entries is irrelevant: two trees that
+       differ only in the order of entries (at any depth) give the same list of test files, hence
+       the same report order (paths in a file system are distinct) *)
+Theorem C16_discovery_order_independent : forall n n',
+  same_tree n n' -> NoDup (map fst (walk true [] n)) ->
+  discover_files (Some n) = discover_files (Some n').
+Proof. exact discover_order_independent. Qed.
+Print Assumptions C16_discovery_order_independent.
+
+Example C16_nonvacuous_order :
+  let f1 := File (s_test_ ++ [97] ++ s_incn) Unparsable in
+  let f2 := File (s_test_ ++ [98] ++ s_incn) (Parsed []) in
+  let d := Dir [100] [f2; f1] in
+  same_tree (Dir [46] [d; f1; f2]) (Dir [46] [f2; Dir [100] [f1; f2]; f1]) /\
+  NoDup (map fst (walk true [] (Dir [46] [d; f1; f2]))) /\
+  length (discover_files (Some (Dir [46] [d; f1; f2]))) = 4%nat.
+Proof.
+  cbv zeta. split; [|split].
+  - apply st_dir with (ch1 := [Dir [100] [File (s_test_ ++ [97] ++ s_incn) Unparsable; File (s_test_ ++ [98] ++ s_incn) (Parsed [])];
+                               File (s_test_ ++ [97] ++ s_incn) Unparsable; File (s_test_ ++ [98] ++ s_incn) (Parsed [])]).
+    + constructor; [|constructor; [constructor | constructor; [constructor | constructor]]].
+      apply st_dir with (ch1 := [File (s_test_ ++ [98] ++ s_incn) (Parsed []); File (s_test_ ++ [97] ++ s_incn) Unparsable]).
+      * constructor; [constructor | constructor; [constructor | constructor]].
+      * apply Permutation.perm_swap.
+    + eapply Permutation.perm_trans; [apply Permutation.perm_skip; apply Permutation.perm_swap|].
+      apply Permutation.perm_swap.
+  - vm_compute. repeat constructor; cbn; intuition discriminate.
+  - vm_compute. reflexivity.
+Qed.
+
+(* T16 "passed only if its body actually RAN": with a harness that executes the selected body,
+       every Passed/XPassed verdict is of a test whose body did run, to completion; with the
+       current harness (runs_body = false) no body runs at all, so even the correct PASSED of a
+       passing test is not backed by an execution (refuted half, witness ex_pass) *)
+Theorem C16_passed_means_body_ran : forall stop compiles body_ok ts t,
+  let s := loop stop (raw_of_harness true compiles body_ok) ts st0 in
+  In (t, Passed) (results s) \/ In (t, XPassed) (results s) ->
+  body_ran true compiles t = true /\ body_ok t = true.
+Proof.
+  intros stop compiles body_ok ts t. cbv zeta. intro H.
+  pose proof (C16_truthful_outside_known_class stop true compiles body_ok ts) as K. cbv zeta in K.
+  assert (Hk : forall t0, In t0 ts -> ~ Known_C16_body_never_run true compiles body_ok t0).
+  { intros t0 _ [A _]. discriminate. }
+  destruct (K Hk) as [_ [P1 [_ [P2 _]]]]. unfold body_ran. cbn [andb].
+  destruct H as [H | H]; [exact (P1 t H) | exact (P2 t H)].
+Qed.
+Print Assumptions C16_passed_means_body_ran.
+
+Theorem C16_passed_means_body_ran_refuted :
+  exists compiles body_ok t,
+    In (t, Passed) (results (loop false (raw_of_harness false compiles body_ok) [t] st0)) /\
+    body_ok t = true /\ body_ran false compiles t = false.
+Proof. exists (fun _ => true), ex_body_ok, ex_pass. repeat split; vm_compute; auto. Qed.
+Print Assumptions C16_passed_means_body_ran_refuted.
